@@ -14,11 +14,11 @@ import (
 
 func init() {
 	register(&PropRules{
-		ID: "C03",
+		ID:      "C03",
 		Explain: "Structural necessary conditions of C03 decided on /repo's SSA: (C03.1) every derivation of a user-file path Join(BaseDir,U) from a caller-supplied name is reachable, along all call paths from the exported store API, only under the fact userNameRe.MatchString(U)==true; (C03.2) every file-system primitive in package store takes a path of one of the confined shapes P_base / P_base/.tmp / temp file in it / P_base/<U>.user|.admin / directory-entry derived (read or stat only) / the configuration file (read only); (C03.3) Check and List count a directory entry only under valid==true; (C03.4) no file-system or exec primitive in cmd/whawty-auth takes an operand derived from request data. The regexp literal is compared with doc/SCHEMA.md.",
-		Undec: []string{"kernel path resolution (symlinks planted inside the base directory), NAME_MAX behaviour", "the system-call level view of a running process", "behaviour for each individual name string (only the guard structure is decided)"},
-		Run:   runC03,
-		Floors: map[string]int{"C03.2": 7, "C03.1": 1},
+		Undec:   []string{"kernel path resolution (symlinks planted inside the base directory), NAME_MAX behaviour", "the system-call level view of a running process", "behaviour for each individual name string (only the guard structure is decided)"},
+		Run:     runC03,
+		Floors:  map[string]int{"C03.2": 7, "C03.1": 1},
 	})
 }
 
@@ -43,8 +43,8 @@ func runC03(c *an.Ctx, p *an.Prog, thorough bool) {
 
 // isConfigReader: the store function that feeds the file to the YAML decoder.
 func isConfigReader(fn *ssa.Function) bool {
-	for _, b := range fn.Blocks {
-		for _, in := range b.Instrs {
+	for _, in := range an.DeepInstrs(fn) {
+		{
 			if ci, ok := in.(ssa.CallInstruction); ok && an.CalleeName(ci) == "gopkg.in/yaml.v3.NewDecoder" {
 				return true
 			}
@@ -101,13 +101,12 @@ func c032(c *an.Ctx, p *an.Prog) {
 	}
 }
 
-
 // ---- C03.1: name grammar on every path derivation ----
 
 type nameCheck struct {
 	c       *an.Ctx
 	p       *an.Prog
-	reGlob  *ssa.Global // the grammar regexp
+	reGlob  *ssa.Global    // the grammar regexp
 	memoB   map[string]int // wrapper summaries: 0 unknown 1 yes 2 no
 	reports map[string]bool
 	sites   int
@@ -124,8 +123,8 @@ func findGrammarGlobal(c *an.Ctx, p *an.Prog) *ssa.Global {
 	var found *ssa.Global
 	var lit string
 	if initFn != nil {
-		for _, b := range initFn.Blocks {
-			for _, in := range b.Instrs {
+		for _, in := range an.DeepInstrs(initFn) {
+			{
 				st, ok := in.(*ssa.Store)
 				if !ok {
 					continue
@@ -167,8 +166,8 @@ func findGrammarGlobal(c *an.Ctx, p *an.Prog) *ssa.Global {
 		if fn == initFn {
 			continue
 		}
-		for _, b := range fn.Blocks {
-			for _, in := range b.Instrs {
+		for _, in := range an.DeepInstrs(fn) {
+			{
 				if st, ok := in.(*ssa.Store); ok && st.Addr == ssa.Value(found) {
 					c.Fail("C03.0", "grammar-writer|"+fnKey(fn), p.InstrPos(in), "the grammar regexp is reassigned outside package initialisation")
 				}
@@ -622,8 +621,8 @@ func checkResultRule(c *an.Ctx, p *an.Prog, check *ssa.Function, rule string, ne
 
 func c034(c *an.Ctx, p *an.Prog) {
 	roots := frontendRoots(p)
-	if len(roots) < 10 {
-		c.Undecided("C03.4", "roots", "-", fmt.Sprintf("UNRESOLVED: only %d request-handling roots found (8 HTTP handlers, SASL callback, LDAP bind expected)", len(roots)))
+	if pr := frontendRootsProblem(roots); pr != "" {
+		c.Undecided("C03.4", "roots", "-", "UNRESOLVED: "+pr)
 		return
 	}
 	var rs []*ssa.Function
